@@ -106,12 +106,15 @@ def columns(parts):
 
 
 def run(chk):
-    r1_units(chk)
-    r2_records(chk)
-    r3_frames(chk)
-    n = forwarding(chk, "C08.R4", "source_units", "the file's declared unit is ignored and the coordinates are taken as Angstrom")
-    chk.require(n >= 8, "loader wrappers with source_units not found")
-    r4_terminal(chk)
+    chk.call(r1_units, chk)
+    chk.call(r2_records, chk)
+    chk.call(r3_frames, chk)
+    def r4_forwarding(chk):
+        n = forwarding(chk, "C08.R4", "source_units", "the file's declared unit is ignored and the coordinates are taken as Angstrom")
+        chk.require(n >= 8, "loader wrappers with source_units not found")
+
+    chk.call(r4_forwarding, chk)
+    chk.call(r4_terminal, chk)
 
 
 # ---------------------------------------------------------------------------
